@@ -1,5 +1,6 @@
 import MJ.Model.Cmp
 import MJ.Model.Num
+import MJ.Gen.Tables
 /-!
 # Floats in the numeric operators (`minijinja/src/value/ops.rs`, `value/mod.rs`)
 
@@ -142,6 +143,61 @@ def cmpOp : CmpOp → N → N → Bool
   | .ge, a, b => cmpN a b != .lt
   | .eq, a, b => eqN a b
   | .ne, a, b => !eqN a b
+
+/-! ## every implementation of the comparison operators
+
+The comparison of two values is written out in five places: the six plain VM instructions
+(`op_binop!`), `Instruction::CompareAndPreserve` (every non-final link of a chained comparison),
+the constant folder's `eval_compare` (chains) and `eval_binop` (single comparisons), and the tests
+`is eq/ne/lt/le/gt/ge` (also what `select`/`reject`/`selectattr` call).  Which Rust operator each
+arm applies is **read from the source**: `MJ.Gen.compareArms` is regenerated from vm/mod.rs,
+compiler/ast.rs and tests.rs on every run (`lib/tables/c08.py`, item `C08_COMPARE_ARMS`). -/
+
+def armName : CmpOp → String
+  | .lt => "lt" | .le => "le" | .gt => "gt" | .ge => "ge" | .eq => "eq" | .ne => "ne"
+
+/-- a Rust comparison operator by its source text -/
+def opOfText (t : String) : Option CmpOp :=
+  if t = "<" then some .lt else if t = "<=" then some .le else if t = ">" then some .gt
+  else if t = ">=" then some .ge else if t = "==" then some .eq else if t = "!=" then some .ne else none
+
+/-- the operator implementation `impl` applies in its arm for `op`, per the regenerated table -/
+def implOp (impl : String) (op : CmpOp) : Option CmpOp :=
+  match MJ.Gen.compareArms.find? (fun e => e.1 == impl && e.2.1 == armName op) with
+  | some e => opOfText e.2.2
+  | none => none
+
+/-- what implementation `impl` computes for `a OP b` -/
+def implCmp (impl : String) (op : CmpOp) (a b : N) : Bool :=
+  match implOp impl op with
+  | some o => cmpOp o a b
+  | none => false
+
+/-- `compile_compare` + VM on numbers: the last link is the plain instruction, every other link is
+    `CompareAndPreserve` followed by `JumpIfFalseOrPop` (a false link ends the chain with `false`,
+    otherwise the preserved right operand becomes the left operand of the next link) -/
+def chain (a : N) : List (CmpOp × N) → Bool
+  | [] => true
+  | (op, b) :: rest =>
+    match rest with
+    | [] => implCmp "vm:instruction" op a b
+    | _ :: _ => if implCmp "vm:compare_and_preserve" op a b then chain b rest else false
+
+/-- `Expr::as_const` on a chain of constants: `eval_compare` link by link, `false` at the first
+    link that is not true -/
+def chainFolded (a : N) : List (CmpOp × N) → Bool
+  | [] => true
+  | (op, b) :: rest => if implCmp "ast:eval_compare" op a b then chainFolded b rest else false
+
+/-- the conjunction of the links, each compared with the plain operator -/
+def conj (a : N) : List (CmpOp × N) → Bool
+  | [] => true
+  | (op, b) :: rest => cmpOp op a b && conj b rest
+
+/-- `[a, b]|min` (`Iterator::min`: `min_by` keeps the earlier element unless the later is smaller) -/
+def minOf (a b : N) : N := if cmpN a b == .gt then b else a
+/-- `[a, b]|max` (`Iterator::max`: `max_by` keeps the later element unless the earlier is greater) -/
+def maxOf (a b : N) : N := if cmpN a b == .gt then a else b
 
 /-- the number a C08 integer representation is in the shared value model -/
 def ofRepr : MJ.Num.NumRepr → N
